@@ -36,6 +36,7 @@ type vfHold struct {
 	Grants     int // number of SUCCED lock replies (1 + re-locks)
 	WasUpdated bool
 	Req        uint64
+	overdueReported bool
 }
 
 type vfWaiter struct {
@@ -53,6 +54,7 @@ type vfWaiter struct {
 	EFlag      uint16
 	Rcount     uint8
 	TFlag      uint16
+	overdueReported bool
 }
 
 type vfKeyId struct {
@@ -670,6 +672,9 @@ func (s *vfShadow) handleLockReply(k *vfKeyState, r *vfReq, ev *vfEvent) {
 			if w.Cancelled {
 				s.report("C02", "cancelled-then-granted", "", "request %d was cancelled and then granted", r.ID)
 			}
+			if w.TFlag&protocol.TIMEOUT_FLAG_MILLISECOND_TIME == 0 && s.e.in.now > w.ArriveTick+w.TSecs+2 {
+				s.report("C05", "granted-after-deadline", "", "request %d queued at tick %d with timeout %ds was granted at tick %d, after its time-out deadline %d had passed without a TIMEOUT", r.ID, w.ArriveTick, w.TSecs, s.e.in.now, w.ArriveTick+w.TSecs+2)
+			}
 			s.evApplied = true
 			k.removeWaiter(w)
 			s.stats["grants_from_queue"]++
@@ -1016,6 +1021,34 @@ func (s *vfShadow) evalAdmissible(k *vfKeyState, seq int) {
 // quiescent is called when a top-level step has completed (no operation in
 // progress): C04 clause (i).
 func (s *vfShadow) quiescent() {
+	// C06: at a quiescent moment no hold is past the latest tick at which it may be ended by time
+	for kid, k := range s.keys {
+		for _, h := range k.Holds {
+			if h.Unlimited || h.AckPending || h.overdueReported {
+				continue
+			}
+			hi := h.DHi + 1
+			if h.Sticky {
+				hi = h.DHi + 10
+			}
+			if s.e.in.now > hi {
+				h.overdueReported = true
+				s.report("C06", "overdue", "", "db%d/k%d: hold L%d is still held at tick %d, later than the latest tick %d at which it had to be ended by time (deadline %d sticky=%v)", kid.Db, kid.Key, h.LockId, s.e.in.now, hi, h.DHi, h.Sticky)
+			}
+		}
+	}
+	// C05: at a quiescent moment no live queued request is past its time-out window
+	for kid, k := range s.keys {
+		for _, w := range k.Waiters {
+			if w.Cancelled || w.overdueReported || w.TFlag&protocol.TIMEOUT_FLAG_MILLISECOND_TIME != 0 {
+				continue
+			}
+			if s.e.in.now > w.ArriveTick+w.TSecs+2 {
+				w.overdueReported = true
+				s.report("C05", "overdue", "", "db%d/k%d: request %d queued at tick %d with timeout %ds is still queued at tick %d (TIMEOUT was due by tick %d)", kid.Db, kid.Key, w.Req, w.ArriveTick, w.TSecs, s.e.in.now, w.ArriveTick+w.TSecs+2)
+			}
+		}
+	}
 	for kid := range s.touched {
 		k := s.keys[kid]
 		s.evalAdmissible(k, len(s.e.events))
